@@ -205,6 +205,20 @@ Definition minimal (x : nat * op) (pending : list (nat * op)) : bool :=
 Definition drop (i : nat) (pending : list (nat * op)) : list (nat * op) :=
   filter (fun y => negb (Nat.eqb (fst y) i)) pending.
 
+(* An operation that may be linearised now, whose response matches and that leaves the store as it is (a read,
+   a refused write) can be taken at once: moving it to the front of any linearisation keeps it valid. *)
+Fixpoint find_pure (step : store -> ureq -> store * response) (s : store) (cs : cstore)
+                   (pending cands : list (nat * op)) : option nat :=
+  match cands with
+  | [] => None
+  | x :: rest =>
+      if minimal x pending then
+        let '(s1, o) := step s (op_req (snd x)) in
+        if cresp_eqb (canon o) (op_resp (snd x)) && cstore_eqb (canon_store s1) cs then Some (fst x)
+        else find_pure step s cs pending rest
+      else find_pure step s cs pending rest
+  end.
+
 (* depth-first search with a budget of visited nodes: (found, budget left); (false, 0) = gave up *)
 Fixpoint lin_b (fuel : nat) (w : cworld) (obs_store : cstore) (s : store) (pending : list (nat * op)) (budget : N)
   : bool * N :=
@@ -214,6 +228,9 @@ Fixpoint lin_b (fuel : nat) (w : cworld) (obs_store : cstore) (s : store) (pendi
       match fuel with
       | O => (false, budget)
       | S f =>
+          match find_pure (ureq_spec w) s (canon_store s) pending pending with
+          | Some i => lin_b f w obs_store s (drop i pending) budget
+          | None =>
           (fix try (cands : list (nat * op)) (budget : N) : bool * N :=
              match cands with
              | [] => (false, budget)
@@ -227,6 +244,7 @@ Fixpoint lin_b (fuel : nat) (w : cworld) (obs_store : cstore) (s : store) (pendi
                    else try rest budget
                  else try rest budget
              end) pending budget
+          end
       end
   end.
 
@@ -247,6 +265,9 @@ Fixpoint lin_s (fuel : nat) (w : cworld) (obs_store : cstore) (s : store) (pendi
       match fuel with
       | O => (false, budget)
       | S f =>
+          match find_pure (ureq_body w) s (canon_store s) pending pending with
+          | Some i => lin_s f w obs_store s (drop i pending) proved budget
+          | None =>
           (fix try (cands : list (nat * op)) (budget : N) : bool * N :=
              match cands with
              | [] => (false, budget)
@@ -269,6 +290,7 @@ Fixpoint lin_s (fuel : nat) (w : cworld) (obs_store : cstore) (s : store) (pendi
                    if ok2 then (true, b2) else try rest b2
                  else try rest budget
              end) pending budget
+          end
       end
   end.
 
